@@ -66,10 +66,11 @@ def rand_rel(rng, odd=0.1):
 
 
 def gen_index_ops(rng, tier, absolute=True):
-    n = {"quick": 1500, "thorough": 40000, "search": 2500}[tier]
+    n = {"quick": 6000, "thorough": 150000, "search": 2500}[tier]
     out = []
     for _ in range(n):
         malformed = rng.random() < 0.2
+        style = rng.random()          # < 0.3: creations only; < 0.5: every deletion is undone at once; else free
         pool = []
         for _ in range(rng.randrange(2, 7)):
             r = rand_rel(rng, 0.35 if malformed else 0.08)
@@ -83,7 +84,7 @@ def gen_index_ops(rng, tier, absolute=True):
         ops = []
         for _ in range(rng.randrange(1, 13)):
             x = rng.random()
-            if x < 0.5 or not present:
+            if x < 0.5 or not present or style < 0.3:
                 p = rng.choice(pool)
                 ops.append("i" + hx(p))
                 if p not in present:
@@ -91,10 +92,14 @@ def gen_index_ops(rng, tier, absolute=True):
             elif x < 0.85:
                 p = rng.choice(present)
                 ops.append("r" + hx(p))
-                present.remove(p)
+                if style < 0.5:
+                    ops.append("i" + hx(p))
+                else:
+                    present.remove(p)
             else:
-                ops.append("r" + hx(rng.choice(pool)))
-                p = ops[-1]
+                cand = [q for q in pool if q not in present] if style < 0.5 else pool
+                if cand:
+                    ops.append("r" + hx(rng.choice(cand)))
         probes = set()
         for p in pool:
             name = p.split("/")[-1]
@@ -204,7 +209,7 @@ def module_strings(rng, files, malformed):
 
 
 def gen_resolve(rng, tier):
-    n = {"quick": 2500, "thorough": 60000, "search": 3000}[tier]
+    n = {"quick": 10000, "thorough": 250000, "search": 3000}[tier]
     out = []
     for _ in range(n):
         malformed = rng.random() < 0.2
@@ -249,7 +254,7 @@ def resolve_describe(c):
 
 # ----------------------------------------------------------------------------- c18.openlist
 def gen_openlist(rng, tier):
-    n = {"quick": 800, "thorough": 20000, "search": 800}[tier]
+    n = {"quick": 2000, "thorough": 40000, "search": 800}[tier]
     alpha = "abmx_09/.-"
     out = []
     for _ in range(n):
@@ -277,10 +282,11 @@ def extractable(kind, s):
 
 
 def gen_project(rng, tier):
-    n = {"quick": 400, "thorough": 8000, "search": 400}[tier]
+    n = {"quick": 2500, "thorough": 50000, "search": 400}[tier]
     out = []
     while len(out) < n:
-        files = {f: k for f, k in gen_tree(rng, rng.random() < 0.08).items() if k in "LD"}
+        # the directory scan only takes *.lua files: everything else on disk is not part of the workspace
+        files = {f: (k if f.endswith(".lua") else "D") for f, k in gen_tree(rng, rng.random() < 0.08).items() if k in "LD"}
         lua = [f for f in files if files[f] == "L"]
         if not lua:
             continue
@@ -363,7 +369,7 @@ def shrink_project(case):
 
 LEGS = [
     Leg("c18.index", lambda rng, tier: gen_index_ops(rng, tier, True), shrink=shrink_index, nontrivial=index_nontrivial),
-    Leg("c18.index_any", lambda rng, tier: gen_index_ops(rng, "search" if tier == "quick" else tier, False)[:600 if tier == "quick" else None],
+    Leg("c18.index_any", lambda rng, tier: gen_index_ops(rng, "search" if tier == "quick" else tier, False)[:1500 if tier == "quick" else 20000],
         deciding=False, nontrivial=index_nontrivial),
     Leg("c18.resolve", gen_resolve, shrink=shrink_resolve, per_case_s=0.2, describe=resolve_describe),
     Leg("c18.openlist", gen_openlist),
